@@ -573,6 +573,97 @@ Proof.
   cbn [flat_map map]. rewrite jb_js_def. f_equal. exact IH.
 Qed.
 
+(** * Runtime: the module loads iff the variable names are pairwise distinct *)
+
+Lemma decl_names_app a b : decl_names (a ++ b) = decl_names a ++ decl_names b.
+Proof.
+  induction a as [|x a IH]; [reflexivity|]. destruct x; cbn [app decl_names]; rewrite IH; reflexivity.
+Qed.
+
+Lemma decl_names_items o d l : decl_names (flat_map (items o d) l) = map (var_name o) l.
+Proof.
+  induction l as [|x l IH]; [reflexivity|].
+  cbn [flat_map map]. rewrite decl_names_app, IH. f_equal.
+  destruct x as [k name p sel|n p]; cbn [items decl_names var_name app].
+  - destruct (default_export_for_operation o && single_op d); reflexivity.
+  - reflexivity.
+Qed.
+
+Lemma var_name_loader o x : var_name o (loader_def x) = var_name o x.
+Proof. destruct x as [k [[n np]|] p sel|n p]; reflexivity. Qed.
+
+Lemma distinct_vars_loader o d : distinct_vars o (loader_view d) = distinct_vars o d.
+Proof.
+  unfold distinct_vars, loader_view. cbn [defs]. rewrite map_map.
+  f_equal. apply map_ext. intros x. apply var_name_loader.
+Qed.
+
+Lemma loadable_js o d B :
+  bodies_ok B = true -> length B = length (defs d) ->
+  loadable (scan (js_ops o d B)) = distinct_vars o d.
+Proof.
+  intros HB HL. rewrite scan_js_ops by assumption. unfold loadable, distinct_vars.
+  rewrite decl_names_items. reflexivity.
+Qed.
+
+Lemma runtime_exports_loader_t t d B B' :
+  bodies_ok B = true -> bodies_ok B' = true -> names_ok t d = true ->
+  length B = length (defs d) -> length B' = length (defs d) ->
+  distinct_vars (t_base t) d = true ->
+  incl (map zero_export (value_exports (scan (dts_ops t d B))))
+       (runtime_exports (scan (js_ops (t_base t) (loader_view d) B')))
+  /\ default_names (scan (dts_ops t d B)) = default_names (scan (js_ops (t_base t) (loader_view d) B')).
+Proof.
+  intros HB HB' HN HL HL' HD. unfold runtime_exports.
+  rewrite loadable_js; [|exact HB'|unfold loader_view; cbn [defs]; rewrite map_length; exact HL'].
+  rewrite distinct_vars_loader, HD. apply exports_loader_t; assumption.
+Qed.
+
+(** the current code violates the runtime reading: a valid document (operation [Foo], fragment
+    [FooQuery]; `nitrogql check` accepts it) under the default configuration *)
+Definition collide_doc : doc :=
+  Doc 0 [OpDef KQuery (Some (s "Foo", P 0 6 0 false)) (P 0 0 0 false) (P 0 10 0 false);
+         FragDef (s "FooQuery") (P 1 0 0 false)].
+Definition collide_B : list defbody := [Body [W (s "{}")] [W (s "{}")] (s "{}"); Body [W (s "{}")] [] (s "{}")].
+
+Lemma runtime_exports_refuted_witness :
+  doc_valid_names collide_doc = true
+  /\ bodies_ok collide_B = true
+  /\ names_ok (type_from_config (parse_config None)) collide_doc = true
+  /\ length collide_B = length (defs collide_doc)
+  /\ value_exports (scan (dts_of_config None collide_doc collide_B))
+      = [(Named (s "FooQuery"), P 1 0 0 false); (Default, P 0 6 0 false); (Default, P 1 0 0 false)]
+  /\ runtime_exports (scan (js_of_config None (loader_view collide_doc) collide_B)) = [].
+Proof. repeat split; vm_compute; reflexivity. Qed.
+
+(** a second shape: operations [foo] and [Foo] (distinct, valid operation names) are capitalised alike *)
+Definition collide_cfg2 : cfg_text := Some (GenT None None (Some (ExportT (Some false) None None))).
+Definition collide_doc2 : doc :=
+  Doc 0 [OpDef KQuery (Some (s "foo", P 0 6 0 false)) (P 0 0 0 false) (P 0 10 0 false);
+         OpDef KQuery (Some (s "Foo", P 1 6 0 false)) (P 1 0 0 false) (P 1 10 0 false)].
+Lemma runtime_exports_refuted_witness2 :
+  doc_valid_names collide_doc2 = true
+  /\ bodies_ok collide_B = true
+  /\ names_ok (type_from_config (parse_config collide_cfg2)) collide_doc2 = true
+  /\ value_exports (scan (dts_of_config collide_cfg2 collide_doc2 collide_B))
+      = [(Named (s "FooQuery"), P 0 6 0 false); (Named (s "FooQuery"), P 1 6 0 false)]
+  /\ runtime_exports (scan (js_of_config collide_cfg2 (loader_view collide_doc2) collide_B)) = [].
+Proof. repeat split; vm_compute; reflexivity. Qed.
+
+Lemma runtime_exports_refuted :
+  exists c d B,
+    doc_valid_names d = true
+    /\ bodies_ok B = true /\ names_ok (type_from_config (parse_config c)) d = true
+    /\ length B = length (defs d)
+    /\ ~ incl (map zero_export (value_exports (scan (dts_of_config c d B))))
+             (runtime_exports (scan (js_of_config c (loader_view d) B))).
+Proof.
+  exists None, collide_doc, collide_B.
+  destruct runtime_exports_refuted_witness as [H0 [H1 [H2 [H3 [H4 H5]]]]].
+  repeat split; try assumption. rewrite H4, H5. intros Hincl.
+  apply (Hincl (zero_export (Default, P 0 6 0 false))). cbn [map]. right. left. reflexivity.
+Qed.
+
 (** * The guard [names_ok] is needed for the op-list reading (not a defect of the code: the text
     written is [TypedDocumentNode<export { ,  as default };…], which is no export statement) *)
 
